@@ -293,7 +293,11 @@ class C09(Check):
         if evictions > 0 and case["expect"]:
             outcome["signatures"].append("%x|%s" % (core.mix(program["files"][program["main"]]) & 0xFFFFFFFFFFFF,
                                                       schedules.hash_points(result["fired"])))
+        seen = set()
         for clause, detail in problems:
+            if clause in seen:
+                continue
+            seen.add(clause)
             explicit = copy.deepcopy(case)
             explicit["gc"] = {"kind": "list", "points": result["fired"]} if gc.get("kind") != "native" else gc
             pinned = copy.deepcopy(case)
